@@ -17,15 +17,11 @@ func init() {
 			Kind: slip.MacroSymbol,
 			Name: "psetf",
 			Args: []*slip.DocArg{
+				{Name: "&rest"},
 				{
-					Name: "placer",
-					Type: "placer",
-					Text: "The symbol to bind to the _value_.",
-				},
-				{
-					Name: "value",
+					Name: "pairs",
 					Type: "object",
-					Text: "The value to assign to _symbol.",
+					Text: "Alternating _placer_ and _value_ arguments. Each _placer_ is assigned the _value_ that follows it.",
 				},
 			},
 			Return: "object",
